@@ -72,6 +72,21 @@ ROW_CHANGING = {"drop_duplicates": "drops rows that agree on the compared column
                 "first": "keeps one row per group", "last": "keeps one row per group", "nth": "keeps one row per group"}
 
 
+def _after_per_molecule_parse(f, recv, depth=0) -> bool:
+    """the receiver is (a name bound once to) the result of <table>.groupby(..).apply(..): the series of parsed molecules"""
+    if depth > 3:
+        return False
+    for x in ast.walk(recv):
+        if isinstance(x, ast.Call) and isinstance(x.func, ast.Attribute) and x.func.attr == "apply" and any(
+                isinstance(y, ast.Call) and isinstance(y.func, ast.Attribute) and y.func.attr == "groupby" for y in ast.walk(x.func.value)):
+            return True
+    if isinstance(recv, ast.Name):
+        vals = [n.value for n in ast.walk(f.node) if isinstance(n, ast.Assign) and len(n.targets) == 1
+                and isinstance(n.targets[0], ast.Name) and n.targets[0].id == recv.id]
+        return len(vals) == 1 and _after_per_molecule_parse(f, vals[0], depth + 1)
+    return False
+
+
 def frame_integrity(ck, rule, modules=("src.parsers.cmap_reader", "src.parsers.bionano_file_reader")):
     """The table read from the file reaches the per-molecule parser row for row: between read_csv and the groupby nothing is
     applied to it that removes, repeats or collapses rows - the only reduction is the `isin` filter on the id column.
@@ -88,6 +103,8 @@ def frame_integrity(ck, rule, modules=("src.parsers.cmap_reader", "src.parsers.b
                 if node.func.attr == "drop" and (any(k.arg == "columns" for k in node.keywords) or any(
                         k.arg == "axis" and ast.unparse(k.value) in ("1", "'columns'", '"columns"') for k in node.keywords)):
                     continue              # dropping a column keeps every row
+                if node.func.attr == "dropna" and _after_per_molecule_parse(f, node.func.value):
+                    continue              # the parsed molecules (None for a molecule without labels), not the table: s[s.notnull()]
                 if node.func.attr in ROW_CHANGING:
                     hit = True
                     ck.violation(rule, short(f) + ":" + node.func.attr, where(f, node),
@@ -292,12 +309,16 @@ def run(ck):
                      found=T.show(v)[:160], required="opticalMaps[opticalMaps.notnull()]")
     ck.floor("C17.3 return values of the CMAP reader carrying maps", n_full, 1)
     # ---- C17.4
-    rm = p.get_function("src.program:Program.__readMaps")
+    rm = p.get_function("src.program:Program.__init__")
+    own_private = lambda callee: callee.cls is rm.cls and callee is not rm and callee.name.startswith("_")
     stores = {}
-    for pa in explore(ck, rm):
+    for pa in explore(ck, rm, follow=own_private, unroll=(0, 1)):
+        if pa.outcome not in ("fall", "return"):
+            continue
         for e in pa.events:
-            if e.kind == "setattr":
+            if e.kind == "setattr" and e.extra["target"] in (self_attr("queryMaps"), self_attr("referenceMaps")):
                 stores[e.extra["target"]] = (e.term, e.node)
+        break
     q, r = stores.get(self_attr("queryMaps")), stores.get(self_attr("referenceMaps"))
     if q is None or r is None:
         raise AnalysisError(f"{rm.where}: assignments of self.queryMaps / self.referenceMaps not found")
